@@ -359,7 +359,7 @@ def parseOp (j : Json) : R Op := do
   | "set" => pure (.set h name idx (← parsePrimJ ((optField j "val").getD .null)) o)
   | "setchild" =>
     if boolFieldD j "nilChild" false then return (.setChildNil h)
-    if (optField j "childHandle").isSome then return (.setChildHandle h (natField j "childHandle"))
+    if (optField j "childHandle").isSome then return (.setChildHandle h (natField j "childHandle") name idx o)
     let d ← parseGoData ((optField j "val").getD .null)
     let co ← parseOpts ((optField j "copts").getD (.arr #[]))
     match newFrom co d with
